@@ -217,7 +217,7 @@ PROPS["C20"] = {'assumptions': ['crypto/rand draws do not repeat and cannot be g
  'level_text': 'returns_only_matching, rogues_closed_never_returned (every arrival order and interleaving: the returned connection presented exactly the '
                'generated id under CCB_REVERSE_CONNECT, everything else is closed and not returned), broker_failure_ends / broker_failure_genuine / '
                'attempt_result_final, proxied_returns_iff / proxied_failure_ends, dial_returns_only_matching (any number of brokers, any subset working, any '
-               'completion order), at_most_one, id_fresh, connect_id_source (GenerateConnectID draws from crypto/rand and reads no package-level state: regenerated table), connect_id_origins (every ClaimId ccb/ puts on the wire or matches a hello against is traced to a GenerateConnectID call or to the peer's ad; math/rand only for the declared non-cryptographic uses), other_requests_id_never_returned: kernel-checked over the event model. Tied to the code by the ccb '
+               'completion order), at_most_one, id_fresh, connect_id_source (GenerateConnectID draws from crypto/rand and reads no package-level state: regenerated table), connect_id_origins (every ClaimId ccb/ puts on the wire or matches a hello against is traced to a GenerateConnectID call or to the ad received from the peer; math/rand only for the declared non-cryptographic uses), other_requests_id_never_returned: kernel-checked over the event model. Tied to the code by the ccb '
                'engine: every arrival order of <=3 (thorough <=4) connections over 8 greeting classes plus random longer sequences with byte-level varieties '
                'on the real accept loop; broker reply x replayed hello on the real proxied request; real ccb.Dial with rogue connections around the legitimate '
                'one, success/failure/no reply racing the reverse connection, proxied and nested contacts, 1-3 brokers (working, failing, refusing, dead), '
@@ -351,7 +351,7 @@ PROPS["C17"] = {'assumptions': ["sync.Mutex / sync.RWMutex mutual exclusion, syn
  'level_text': 'lockset_sound (Eraser soundness for any number of threads over mutexes with a shared mode), cache_discipline (every method of SessionCache / '
                'SessionEntry in the regenerated fact table obeys the declared guard policy and releases its locks, hence no interleaving of any threads '
                'calling any of them on any objects has a data race on any field), cache_atomic_sections (each cache method is one critical section), '
-               'globals_once, invalidate_wins + wf_reachable (in every linearization nothing returns an invalidated id until it is stored again), resumption_path_never_stores + invalidate_wins_resumption (the 'stored again' hypothesis discharged from the code for resumptions in flight: regenerated table of cache calls on both resumption paths lists no Store), fact_tables_inhabited, sweep_count, '
+               'globals_once, invalidate_wins + wf_reachable (in every linearization nothing returns an invalidated id until it is stored again), resumption_path_never_stores + invalidate_wins_resumption (the stored-again hypothesis discharged from the code for resumptions in flight: regenerated table of cache calls on both resumption paths lists no Store), fact_tables_inhabited, sweep_count, '
                'config_not_written (every library NewAuthenticator call site hands over a copy; only declared writes through configurations), '
                'handshakes_isolated (all interleavings, one copy per connection) with sharing_disturbs as the recorded reason, established_after_handshake, '
                'directions_independent (every interleaving of send and receive operations on an established stream shows each goroutine exactly what it sees '
